@@ -58,6 +58,11 @@ func (vc *ConnCursor) Rowid() (int64, error) {
 }
 
 func (vc *ConnCursor) Column(context *sqlite.VirtualTableContext, i int) error {
+	if context.NoChange() {
+		// an UPDATE that does not mention this attribute must leave it alone:
+		// re-reading the formatted value would re-assign it (truncated to seconds)
+		return nil
+	}
 	switch i {
 	case 0:
 		if vc.vm.sc.deadline.IsZero() {
@@ -119,7 +124,10 @@ func (c *ConnModule) Update(value sqlite.Value, values ...sqlite.Value) error {
 	}
 	c.sc.deadline, c.sc.writeTime = newDeadline, newWriteTime
 
-	c.sc.txFixedWriteTime = false
+	if !writeTime.NoChange() {
+		// only an explicit write_time outlives the transaction
+		c.sc.txFixedWriteTime = false
+	}
 	c.sc.ResetContext()
 
 	return nil
